@@ -238,3 +238,29 @@ package hrpc
 //@   pure
 //@ func hrpc.(*Scan).RenewInterval
 //@   pure
+
+//@ func hrpc.NewScanRange
+//@   trusted "constructor: allocates a new Scan and applies the options; fails only if an option is rejected"
+//@   modifies nothing
+//@   ensures r1 == nil ==> r0 != nil
+//@ func hrpc.ScannerID
+//@   trusted "option constructor"
+//@   modifies nothing
+//@ func hrpc.CloseScanner
+//@   trusted "option constructor"
+//@   modifies nothing
+//@ func hrpc.NumberOfRows
+//@   trusted "option constructor"
+//@   modifies nothing
+//@ func hrpc.(*base).Table
+//@   pure
+//@ func hrpc.(*base).Context
+//@   pure
+//@ func hrpc.(*base).Key
+//@   pure
+//@ func hrpc.(*base).Options
+//@   pure
+//@ func hrpc.ToLocalResult
+//@   trusted "constant-time view conversion (uses unsafe to reinterpret the cell slice); allocates the local result"
+//@   modifies nothing
+//@   ensures r0 != nil
